@@ -7,6 +7,7 @@ import PqlModel.Props.C02Statement
 import PqlModel.Props.C05ParseStatement
 import PqlModel.Props.C02EndToEnd
 import PqlModel.Props.C05Parsed
+import PqlModel.Props.C02EndToEndSource
 #print axioms Pql.C05.C05_ends_with_semicolon
 #print axioms Pql.C05.C05_subqueryName_injective
 #print axioms Pql.C05.C05_chain_names_by_index
